@@ -21,6 +21,9 @@ ASSUMPTIONS = ['formulation as in the statement (reduced kernel, radius inside R
                'near terms (< 2.5 segments) are outside the statement']
 
 
+RULE = RULE + ' One case per two-wire structure fills the matrix of the same object a second time at the same frequency.'
+
+
 def bounds(tier, seed):
     return dict(max_wires=3 if tier == 'quick' else 4, variant=geom.variant(seed))
 
